@@ -151,10 +151,13 @@ def rqa_clauses(obj, R, miss=None, lmins=None, resample=False, label="", lags=Tr
 
     # scalar measures as functions of the (oracle) histograms
     PD, PV, PW = H["diag"], H["vert"], H["white"]
+    max_ok = True        # resampling is only exercised when the max lengths are right (it may not terminate otherwise)
     if sym:
         ok, v = call("max_diaglength")
+        max_ok &= bool(ok and int(v) == S.max_length(PD))
         yield "max_diaglength", ok and int(v) == S.max_length(PD), f"got {v} want {S.max_length(PD)}"
     ok, v = call("max_vertlength")
+    max_ok &= bool(ok and int(v) == S.max_length(PV))
     yield "max_vertlength", ok and int(v) == S.max_length(PV), f"got {v} want {S.max_length(PV)}"
     ok, v = call("max_white_vertlength")
     yield "max_white_vertlength", ok and int(v) == S.max_length(PW), f"got {v} want {S.max_length(PW)}"
@@ -185,15 +188,16 @@ def rqa_clauses(obj, R, miss=None, lmins=None, resample=False, label="", lags=Tr
                 good = _frac_close(v, want, rtol)
             yield name, good, f"min length {lo}: got {v} want {float(want)}"
         if sym:
-            ok, v = call("rqa_summary", lo, lo)
+            vo = n - lo + 1 if 1 <= n - lo + 1 <= n else lo          # a different v_min than l_min
+            ok, v = call("rqa_summary", lo, vo)
             if not ok:
                 yield "rqa_summary/applicable", False, v
             else:
                 want = {"RR": black / float(n * n), "DET": S.ratio_points(PD, lo),
-                        "L": S.average_length(PD, lo), "LAM": S.ratio_points(PV, lo)}
+                        "L": S.average_length(PD, lo), "LAM": S.ratio_points(PV, vo)}
                 good = isinstance(v, dict) and set(v) == set(want) and \
                     all(_frac_close(v[k], want[k]) for k in want)
-                yield "rqa_summary", good, f"min length {lo}: got {v} want { {k: float(x) for k, x in want.items()} }"
+                yield "rqa_summary", good, f"l_min {lo} v_min {vo}: got {v} want { {k: float(x) for k, x in want.items()} }"
 
     # documented defaults: l_min = v_min = 2, w_min = 1
     dflt = [("laminarity", S.ratio_points(PV, 2)), ("average_vertlength", S.average_length(PV, 2)),
@@ -210,7 +214,15 @@ def rqa_clauses(obj, R, miss=None, lmins=None, resample=False, label="", lags=Tr
         ok, v = call(name)
         yield name + "/default-min-length", ok and abs(float(v) - S.entropy(P, lo)) <= ATOL_H, f"got {v}"
 
-    if resample:
+    if sym:
+        ok, v = call("rqa_summary")
+        want = {"RR": black / float(n * n), "DET": S.ratio_points(PD, 2),
+                "L": S.average_length(PD, 2), "LAM": S.ratio_points(PV, 2)}
+        yield "rqa_summary/default-min-length", ok and isinstance(v, dict) and set(v) == set(want) and \
+            all(_frac_close(v[k], want[k]) for k in want), f"got {v}"
+
+    if resample and max_ok and got.get("vert") is not None and got["vert"].tolist() == PV and \
+            (not sym or (got.get("diag") is not None and got["diag"].tolist() == PD)):
         for name, P in (("resample_vertline_dist", PV),) + ((("resample_diagline_dist", PD),) if sym else ()):
             ok, v = call(name, 7)
             if not ok:
